@@ -30,6 +30,7 @@ struct Scope {
 
 const WORDS: &[&str] = &[
     "hello", "world", "rock", "ön", "ñandú", "日本", "a b", "x", "ÿ", "🎸", "tab\there", "quo'te",
+    "back`tick", "`", "a`b`c`d", "{} %s $X \\n", "semi;colon (paren) [bracket]",
 ];
 
 impl<'t> Gen<'t> {
